@@ -18,7 +18,9 @@ RULE = ("Hypothesis-drawn chain states (forked histories under short retarget pe
         "until a block is found. Oracle: the found block is reference-valid at the found-time clock and accepted by add_block; "
         "its reward is exactly one output of subsidy_ref(h) + reference fees to the miner's key; timestamp > parent's; it "
         "contains the pooled transactions; afterwards ChainManager.coinstate contains it as head, the reopened store holds it "
-        "byte-identically, and every active peer got exactly one unsolicited block message carrying it. non-trivial = find with "
+        "byte-identically, and every active peer got exactly one unsolicited block message carrying it; in half of the cases a "
+        "second miner then reports a winning candidate on the SAME parent: that block, which does not extend the head, must be in "
+        "the served state (head unchanged), stored and broadcast once. non-trivial = find with "
         ">= 1 pooled transaction or an assembly clock <= the head's time or a head at a retarget boundary; distinct = digest of "
         "the case.")
 ASSUMPTIONS = ["sequential hand-over (no real thread races between miner, watcher and network thread)",
@@ -223,6 +225,8 @@ def execute(case):
                 fail("adopt", "found-block-not-broadcast-exactly-once", "peer %d received %d unsolicited block messages carrying the found block (%s)" % (k, n, tag))
         if net.escaped:
             fail("escape", "exception-escaped-handler", net.escaped[0][1])
+        if case.get("second_find") and not fails and not deep:
+            second_find(case, mw, node, peers, net, led, plain, t_found, d, fail, info)
         return fails, info
     finally:
         BS.DefaultBlockStore.instance = old_default
@@ -231,6 +235,73 @@ def execute(case):
             store.close()
         except Exception:
             pass
+
+
+def second_find(case, mw, node, peers, net, led, first, t_found, d, fail, info):
+    """a second miner process reports a winning candidate that was assembled on the SAME parent as the block just found:
+    a found block that does not extend the head must still become part of the served state, be stored and broadcast"""
+    from vf import simnet, build as b
+    from skepticoin import blockstore as BS, consensus as C
+    from skepticoin.networking import messages as M
+    from skepticoin.datatypes import Block, BlockHeader
+    info["second_find"] = 1
+    # the candidate miner 1 holds: same parent, same pool snapshot, assembled before the first find
+    parent = led.nodes[first.prev]
+    prev_state = node.cm.coinstate
+    import skepticoin.networking.manager as MG
+    # re-create the pre-find situation for miner 1 only: its mining args are a candidate on the old head
+    old_cs = mw.coinstate
+    view = type(old_cs)(old_cs.block_by_hash, old_cs.unspent_transaction_outs_by_hash, old_cs.block_by_height_by_hash, old_cs.heads, first.prev)
+    from skepticoin.signing import SECP256k1PublicKey
+    from vf.keys import KEYS
+    found = None
+    for nonce in range(case["nonce0"] + 100_000, case["nonce0"] + 160_000):
+        summary, height, txs = C.construct_block_pow_evidence_input(view, [b.to_sk_tx(t) for t in first.txs[1:]], SECP256k1PublicKey(KEYS[6].pub), first.ts, b"", nonce & 0xFFFFFFFF)
+        sh = C.construct_summary_hash(summary, height)
+        ev = C.construct_pow_evidence_after_scrypt(sh, view, summary, height, txs)
+        blk = Block(BlockHeader(summary, ev), txs)
+        if blk.hash() < blk.target:
+            found = (summary, height, txs, sh, blk)
+            break
+    if found is None:
+        raise env.HarnessError("no second block found")
+    summary, height, txs, sh, blk = found
+    if blk.hash() == first.id():
+        return
+    mw.send_queues.append(Q())
+    mw.mining_args[1] = (summary, height, txs)
+    for w in peers:
+        w.collect()
+    marks = [len(w.received) for w in peers]
+    simnet.CLOCK.now = max(simnet.CLOCK.now, t_found)
+    try:
+        with env.quiet():
+            mw.handle_scrypt_output_message(1, sh)
+    except Exception as e:
+        fail("found", "second-find-handler-raised:" + exc_sig(e), "reporting a second find on the same parent raised %r" % (e,))
+        return
+    bid = blk.hash()
+    served = node.cm.coinstate
+    if bid not in served.block_by_hash:
+        fail("adopt", "side-branch-find-not-in-served-state", "a found block that does not extend the head (second miner, same parent) is missing from the chain state served to peers")
+    elif served.current_chain_hash != first.id():
+        fail("adopt", "head-switched-on-tie", "the second find on the same parent replaced the first one as head")
+    if first.id() not in served.block_by_hash:
+        fail("adopt", "first-find-lost", "the first found block vanished from the served state when the second find was reported")
+    with env.quiet():
+        s2 = BS.BlockStore(os.path.join(d, "chain.db"))
+    try:
+        disk = {x.hash() for x in s2.read_blocks_from_disk()}
+    finally:
+        s2.close()
+    if bid not in disk:
+        fail("adopt", "side-branch-find-not-in-store", "the second found block was not written to the block store")
+    net.drain(None, only=[node])
+    for k, w in enumerate(peers):
+        w.collect()
+        n = sum(1 for (h, m) in w.received[marks[k]:] if isinstance(m, M.DataMessage) and m.data_type == M.DATA_BLOCK and h.in_response_to == 0 and m.data.hash() == bid)
+        if n != 1:
+            fail("adopt", "side-branch-find-not-broadcast-exactly-once", "peer %d received %d unsolicited block messages carrying the second found block" % (k, n))
 
 
 def shards(tier):
@@ -248,7 +319,8 @@ def run(shard, tier, seed):
     def prop(rnd, cfg, nb, deep, asm_off, found_delay, n_pool, fee_sel):
         deepd = chainexec.gen_deep(rnd) if (deep and cfg[0] == R.REAL_PERIOD) else None
         case = chainexec.gen_case(rnd, cfg if deepd is None else chainexec.CFGS[3], nb, 0.0, ["C01"], deep=deepd, p_tx=0.6, p_fork=0.3)
-        case.update(asm_off=asm_off, found_delay=found_delay, n_pool=n_pool, fee_sel=fee_sel, nonce0=rnd.randrange(1 << 32))
+        case.update(asm_off=asm_off, found_delay=found_delay, n_pool=n_pool, fee_sel=fee_sel, nonce0=rnd.randrange(1 << 32),
+                    second_find=rnd.random() < 0.5)
         try:
             fails, info = execute(case)
         except env.HarnessError as e:
@@ -260,6 +332,7 @@ def run(shard, tier, seed):
         res.count("finds_at_retarget_boundary", 1 if info["boundary"] else 0)
         res.count("finds_assembly_clock_not_after_head", 1 if info["early_clock"] else 0)
         res.count("deep_states", 1 if deepd else 0)
+        res.count("second_finds_on_same_parent", info.get("second_find", 0))
         if info["pool"] or info["early_clock"] or info["boundary"]:
             res.nontrivial(env.digest(case))
         if res.evaluations in (1, 9):
